@@ -1,7 +1,7 @@
 """C04 — redirections connect exactly the named descriptors to the named files.
 
 All sequences of up to 2 (thorough 3) redirections over {>f >>f 1>f 2>f 2>>f 2>&1 1>&2 >&2 <g <<<w} (two target files),
-spaced, attached and spaced with the target written as a quoted word, on an external program (alone and as first/middle/last stage of a three-stage pipeline) and on
+spaced, attached, and spaced / attached with the target written as a quoted word, on an external program (alone and as first/middle/last stage of a three-stage pipeline) and on
 output-producing builtins (alias listing for stdout, unalias of a missing name for stderr, read for stdin) and on an
 external program whose output is captured by "$(...)", against
 target files that are absent, present with content, or unopenable, followed by a second command that must be
@@ -22,8 +22,8 @@ def spell(r, spaced):
         return r
     for op in ('<<<', '2>>', '1>', '2>', '>>', '>', '<'):
         if r.startswith(op) and not r[len(op):].startswith('&'):
-            q = {'dq': '"', 'sq': "'"}.get(spaced, '')      # the target written as a quoted word
-            return op + ' ' + q + r[len(op):] + q
+            q = {'dq': '"', 'sq': "'", 'adq': '"'}.get(spaced, '')      # the target written as a quoted word
+            return op + ('' if spaced == 'adq' else ' ') + q + r[len(op):] + q
     return r
 
 
@@ -302,6 +302,7 @@ def cases(tier):
                     out.append((cmd, seq, False, 'absent'))
                     out.append((cmd, seq, 'dq', 'absent'))
                     out.append((cmd, seq, 'sq', 'present'))
+                    out.append((cmd, seq, 'adq', 'absent'))     # operator glued to the quoted target: >"f1"
                     if seq[0] not in ('2>&1', '1>&2', '>&2', '<<<w'):
                         out.append((cmd, seq, True, 'unopenable'))
                 elif n == 2 and cmd in ('ext', 'alias', 'unalias', 'read', 'ext-captured'):
